@@ -331,3 +331,14 @@ def seq_tok(seq, i):
     """token term of element i of a Seq of ArcTok"""
     e = select(seq.elems, z3.IntVal(i) if isinstance(i, int) else i)
     return e.tok
+
+
+def returns_covers(ret, upto=None):
+    """vacuity covers 'returns k': the length of a returned sequence is a python int on paths that fork on it and a term when the
+    code computes it without forking (e.g. filter_map + collect) - cover each possible value in that case"""
+    from framework import Cover
+    k = ret.cn()
+    if k is not None:
+        return [Cover('returns %d' % k)]
+    n = len(ret.elems) if upto is None else upto
+    return [Cover('returns %d' % j, ret.n == j) for j in range(n + 1)]
